@@ -2,7 +2,9 @@
    Property theorems only; proofs in proofs/BCEncProofs.v over the decoder model of C03 (model/BCdec.v).  The BC
    encoders themselves (least-squares fits, refinement, float code) are not modelled: their outputs are checked
    by an oracle that decodes them with the crate's own decoder and inspects the emitted block bytes. *)
-From DDSV Require Import base.Machine model.Numeric model.BCdec proofs.BCEncProofs.
+From DDSV Require Import base.Machine model.Numeric model.BCdec proofs.BCEncProofs model.EncBlocks proofs.EncBlocksProofs.
+From Coq Require Import List.
+Import ListNotations.
 
 (* why "colour0 > colour1" makes BC2/BC3 colour blocks portable *)
 Theorem C13_mode_independent_when_c0_gt_c1 : forall c0 c1, c1 < c0 -> bc1_lut true c0 c1 = bc1_lut false c0 c1.
@@ -18,8 +20,29 @@ Theorem C13_f13_power_iteration_start_is_annihilated : forall dr dg db : Z, (dr 
   (dr * dr * 1 + dr * dg * 1 + dr * db * 1 = 0 /\ dg * dr * 1 + dg * dg * 1 + dg * db * 1 = 0 /\ db * dr * 1 + db * dg * 1 + db * db * 1 = 0)%Z.
 Proof. exact f13_power_iteration_start_is_annihilated. Qed.
 
+(* the gathering of the 4x4 blocks (for_each_f32_rgba_rows, block_universal; model/EncBlocks.v, tied to the code by the block
+   contents of tag 55): incomplete groups of rows are completed with copies of the group's first row, incomplete blocks with
+   copies of the last pixel of each row - so no block position, padding included, ever holds anything but a pixel of the
+   surface, and a surface of one colour hands only blocks of that colour to the block encoders, partial edge blocks included *)
+Theorem C13_blocks_hold_image_pixels : forall (X : Type) (bw bh : nat) (d : X), (1 <= bw)%nat -> (1 <= bh)%nat ->
+  forall (w : nat) (img : list (list X)), (1 <= w)%nat -> Forall (fun r => length r = w) img ->
+  forall blk brow px, In blk (image_blocks X bw bh d w img) -> In brow blk -> In px brow -> In px (concat img).
+Proof. exact blocks_hold_image_pixels. Qed.
+Theorem C13_constant_image_constant_blocks : forall (X : Type) (bw bh : nat) (d : X), (1 <= bw)%nat -> (1 <= bh)%nat ->
+  forall (w : nat) (img : list (list X)), (1 <= w)%nat -> Forall (fun r => length r = w) img ->
+  forall c, (forall row px, In row img -> In px row -> px = c) ->
+  forall blk brow px, In blk (image_blocks X bw bh d w img) -> In brow blk -> In px brow -> px = c.
+Proof. exact constant_image_constant_blocks. Qed.
+Theorem C13_block_count : forall (X : Type) (bw bh : nat) (d : X), (1 <= bw)%nat -> (1 <= bh)%nat -> forall (w : nat) (img : list (list X)), (1 <= w)%nat ->
+  length (image_blocks X bw bh d w img) = ((w + bw - 1) / bw * ((length img + bh - 1) / bh))%nat.
+Proof. exact block_count. Qed.
+Example C13_blocks_ex : image_blocks nat 2 2 0%nat 3 [[1; 2; 3]; [4; 5; 6]; [7; 8; 9]]%nat
+  = [[[1; 2]; [4; 5]]; [[3; 3]; [6; 6]]; [[7; 8]; [7; 8]]; [[9; 9]; [9; 9]]]%nat.
+Proof. reflexivity. Qed.
+
 Example C13_ex : bc1_lut true 63488 2016 = bc1_lut false 63488 2016.
 Proof. reflexivity. Qed.
 
-Definition C13_all := (C13_mode_independent_when_c0_gt_c1, C13_three_colour_lut, C13_index3_unused_agree, C13_f13_power_iteration_start_is_annihilated).
+Definition C13_all := (C13_mode_independent_when_c0_gt_c1, C13_three_colour_lut, C13_index3_unused_agree, C13_f13_power_iteration_start_is_annihilated,
+  C13_blocks_hold_image_pixels, C13_constant_image_constant_blocks, C13_block_count).
 Redirect "props/C13.assumptions" Print Assumptions C13_all.
